@@ -83,17 +83,28 @@ func c38Acquire(scratch string) (*c38Stack, error) {
 	if err != nil {
 		return nil, err
 	}
-	authz, err := luaauth.NewLuaAuthorizer("function authorizeRequest(request)\n return true\nend\n")
+	srv, cs, err := c38Serve(sv.st)
 	if err != nil {
 		return nil, err
 	}
-	h := server.SetupServer([]settings.Credentials{{AccessKeyId: c38KeyID, SecretAccessKey: c38Secret}}, c38Region, "127.0.0.1", "s3-website.localhost", authz, sv.st)
+	return &c38Stack{direct: d, served: sv, srv: srv, client: cs}, nil
+}
+
+// c38Serve puts a real pithos HTTP server (credentials configured, so SigV4 is verified) in front of
+// st and returns an S3ClientStorage (aws-sdk-go-v2, path style) pointed at it.
+func c38Serve(st storage.Storage) (*httptest.Server, storage.Storage, error) {
+	authz, err := luaauth.NewLuaAuthorizer("function authorizeRequest(request)\n return true\nend\n")
+	if err != nil {
+		return nil, nil, err
+	}
+	h := server.SetupServer([]settings.Credentials{{AccessKeyId: c38KeyID, SecretAccessKey: c38Secret}}, c38Region, "127.0.0.1", "s3-website.localhost", authz, st)
 	srv := httptest.NewServer(h)
 	cfg, err := awsconfig.LoadDefaultConfig(context.Background(), awsconfig.WithRegion(c38Region),
 		awsconfig.WithCredentialsProvider(credentials.NewStaticCredentialsProvider(c38KeyID, c38Secret, "")),
 		awsconfig.WithRetryMaxAttempts(1))
 	if err != nil {
-		return nil, err
+		srv.Close()
+		return nil, nil, err
 	}
 	cl := s3.NewFromConfig(cfg, func(o *s3.Options) {
 		o.UsePathStyle = true
@@ -101,12 +112,14 @@ func c38Acquire(scratch string) (*c38Stack, error) {
 	})
 	cs, err := s3client.NewStorage(cl)
 	if err != nil {
-		return nil, err
+		srv.Close()
+		return nil, nil, err
 	}
 	if err := cs.Start(context.Background()); err != nil {
-		return nil, err
+		srv.Close()
+		return nil, nil, err
 	}
-	return &c38Stack{direct: d, served: sv, srv: srv, client: cs}, nil
+	return srv, cs, nil
 }
 
 func c38Release(s *c38Stack) {
@@ -255,6 +268,10 @@ func c38Ranges(n int) []storage.ByteRange {
 		return []storage.ByteRange{{Start: i(0), End: i(2)}, {Start: i(3), End: i(5)}}
 	case 5:
 		return []storage.ByteRange{{Start: i(100000), End: i(100002)}}
+	case 6:
+		return []storage.ByteRange{{Start: i(0), End: i(2)}, {End: i(2)}}
+	case 7:
+		return []storage.ByteRange{{Start: i(1)}, {End: i(1)}, {Start: i(0), End: i(1)}}
 	}
 	return nil
 }
@@ -490,6 +507,175 @@ func (s *c38Side) op(f []string) (proj string, err error) {
 		sorted := append([]string(nil), l...)
 		sort.Strings(sorted)
 		return strings.Join([]string{"ok", c38F("versions", strings.Join(l, ",")), c38F("versionset", strings.Join(sorted, ",")), c38F("cp", fmt.Sprintf("%q", r.CommonPrefixes)), c38F("trunc", r.IsTruncated), c38F("nextkey", c38P(r.NextKeyMarker)), c38F("nextver", s.vname(r.NextVersionIDMarker))}, " "), nil
+	case "LW": // LW,b,prefix,delim,maxkeys: ListObjects page by page (StartAfter = greatest key / common prefix of the page)
+		o := storage.ListObjectsOptions{MaxKeys: int32(n(4))}
+		if n(2) > 0 {
+			p := c38Prefixes[n(2)%len(c38Prefixes)]
+			o.Prefix = &p
+		}
+		if n(3) > 0 {
+			d := c38Delims[n(3)%len(c38Delims)]
+			o.Delimiter = &d
+		}
+		out := []string{"ok"}
+		var all []string
+		pages := 0
+		for pages < 12 {
+			r, err := st.ListObjects(ctx, B(1), o)
+			if err != nil {
+				if pages == 0 {
+					return c38Err(err), err
+				}
+				out = append(out, c38F(fmt.Sprintf("p%d.err", pages+1), c38ErrKind(err)))
+				break
+			}
+			pages++
+			var l []string
+			last := ""
+			for _, ob := range r.Objects {
+				l = append(l, fmt.Sprintf("%s:%s:%d:class%s:cktype%s", c37KeyID(c38Keys, ob.Key.String()), ob.ETag, ob.Size, c38P(ob.StorageClass), c38P(ob.ChecksumType)))
+				all = append(all, "k"+c37KeyID(c38Keys, ob.Key.String()))
+				if ob.Key.String() > last {
+					last = ob.Key.String()
+				}
+			}
+			for _, cp := range r.CommonPrefixes {
+				all = append(all, "cp"+cp)
+				if cp > last {
+					last = cp
+				}
+			}
+			pf := fmt.Sprintf("p%d.", pages)
+			out = append(out, c38F(pf+"objects", strings.Join(l, ",")), c38F(pf+"cp", fmt.Sprintf("%q", r.CommonPrefixes)), c38F(pf+"trunc", r.IsTruncated))
+			if !r.IsTruncated || last == "" {
+				break
+			}
+			la := last
+			o.StartAfter = &la
+		}
+		out = append(out, c38F("pages", pages), c38F("all", strings.Join(all, ",")))
+		return strings.Join(out, " "), nil
+	case "VW": // VW,b,prefix,delim,maxkeys: ListObjectVersions page by page with the returned markers
+		o := storage.ListObjectVersionsOptions{MaxKeys: int32(n(4))}
+		if n(2) > 0 {
+			p := c38Prefixes[n(2)%len(c38Prefixes)]
+			o.Prefix = &p
+		}
+		if n(3) > 0 {
+			d := c38Delims[n(3)%len(c38Delims)]
+			o.Delimiter = &d
+		}
+		out := []string{"ok"}
+		var all []string
+		pages := 0
+		for pages < 14 {
+			r, err := st.ListObjectVersions(ctx, B(1), o)
+			if err != nil {
+				if pages == 0 {
+					return c38Err(err), err
+				}
+				out = append(out, c38F(fmt.Sprintf("p%d.err", pages+1), c38ErrKind(err)))
+				break
+			}
+			pages++
+			var l []string
+			for _, v := range r.Versions {
+				vid := v.VersionID
+				e := fmt.Sprintf("%s:%s:dm=%v:latest=%v:%d:etag%s:class%s", c37KeyID(c38Keys, v.Key.String()), s.vname(&vid), v.IsDeleteMarker, v.IsLatest, v.Size, c38P(v.ETag), c38P(v.StorageClass))
+				l = append(l, e)
+				all = append(all, c37KeyID(c38Keys, v.Key.String())+":"+s.vname(&vid))
+			}
+			sorted := append([]string(nil), l...)
+			sort.Strings(sorted)
+			pf := fmt.Sprintf("p%d.", pages)
+			out = append(out, c38F(pf+"versions", strings.Join(l, ",")), c38F(pf+"versionset", strings.Join(sorted, ",")), c38F(pf+"cp", fmt.Sprintf("%q", r.CommonPrefixes)),
+				c38F(pf+"trunc", r.IsTruncated), c38F(pf+"nextkey", c38P(r.NextKeyMarker)), c38F(pf+"nextver", s.vname(r.NextVersionIDMarker)))
+			if !r.IsTruncated || (r.NextKeyMarker == nil && r.NextVersionIDMarker == nil) {
+				break
+			}
+			o.KeyMarker, o.VersionIDMarker = r.NextKeyMarker, r.NextVersionIDMarker
+		}
+		sort.Strings(all)
+		out = append(out, c38F("pages", pages), c38F("all", strings.Join(all, ",")))
+		return strings.Join(out, " "), nil
+	case "MLW": // MLW,b,maxuploads: ListMultipartUploads page by page
+		o := storage.ListMultipartUploadsOptions{MaxUploads: int32(n(2))}
+		out := []string{"ok"}
+		pages := 0
+		for pages < 10 {
+			r, err := st.ListMultipartUploads(ctx, B(1), o)
+			if err != nil {
+				if pages == 0 {
+					return c38Err(err), err
+				}
+				out = append(out, c38F(fmt.Sprintf("p%d.err", pages+1), c38ErrKind(err)))
+				break
+			}
+			pages++
+			var l []string
+			for _, u := range r.Uploads {
+				un := "?"
+				for i, id := range s.ups {
+					if id.String() == u.UploadId.String() {
+						un = "u" + strconv.Itoa(i+1)
+					}
+				}
+				l = append(l, c37KeyID(c38Keys, u.Key.String())+":"+un)
+			}
+			pf := fmt.Sprintf("p%d.", pages)
+			nu := "?"
+			if r.NextUploadIdMarker == "" {
+				nu = "-"
+			}
+			for i, id := range s.ups {
+				if id.String() == r.NextUploadIdMarker {
+					nu = "u" + strconv.Itoa(i+1)
+				}
+			}
+			out = append(out, c38F(pf+"uploads", strings.Join(l, ",")), c38F(pf+"trunc", r.IsTruncated), c38F(pf+"nextkey", r.NextKeyMarker), c38F(pf+"nextupload", nu))
+			if !r.IsTruncated || r.NextKeyMarker == "" {
+				break
+			}
+			nk, nid := r.NextKeyMarker, r.NextUploadIdMarker
+			o.KeyMarker, o.UploadIdMarker = &nk, &nid
+		}
+		out = append(out, c38F("pages", pages))
+		return strings.Join(out, " "), nil
+	case "MQW": // MQW,slot,maxparts: ListParts page by page
+		var id storage.UploadId
+		b, k := 0, 0
+		if sl := n(1); sl < len(s.ups) {
+			id, b, k = s.ups[sl], s.upB[sl], s.upK[sl]
+		} else {
+			id = storage.MustNewUploadId("01ARZ3NDEKTSV4RRFFQ69G5FAV")
+		}
+		bn, kn := storage.MustNewBucketName(c38Buckets[b%len(c38Buckets)]), storage.MustNewObjectKey(c38Keys[k%len(c38Keys)])
+		o := storage.ListPartsOptions{MaxParts: int32(n(2))}
+		out := []string{"ok"}
+		pages := 0
+		for pages < 10 {
+			r, err := st.ListParts(ctx, bn, kn, id, o)
+			if err != nil {
+				if pages == 0 {
+					return c38Err(err), err
+				}
+				out = append(out, c38F(fmt.Sprintf("p%d.err", pages+1), c38ErrKind(err)))
+				break
+			}
+			pages++
+			var l []string
+			for _, p := range r.Parts {
+				l = append(l, fmt.Sprintf("%d:%s:%d:crc32%s", p.PartNumber, p.ETag, p.Size, c38P(p.ChecksumCRC32)))
+			}
+			pf := fmt.Sprintf("p%d.", pages)
+			out = append(out, c38F(pf+"parts", strings.Join(l, ",")), c38F(pf+"trunc", r.IsTruncated), c38F(pf+"max", r.MaxParts), c38F(pf+"marker", r.PartNumberMarker), c38F(pf+"next", c38P(r.NextPartNumberMarker)), c38F(pf+"class", c38P(r.StorageClass)))
+			if !r.IsTruncated || r.NextPartNumberMarker == nil {
+				break
+			}
+			o.PartNumberMarker = r.NextPartNumberMarker
+		}
+		out = append(out, c38F("pages", pages))
+		return strings.Join(out, " "), nil
 	case "t+": // t+,b,k,tags,ver
 		var o *storage.ObjectTaggingOptions
 		if n(4) > 0 {
@@ -720,6 +906,7 @@ func (c38) Run(in string, scratch string) Result {
 	var outs, fails []string
 	ops := t[1:]
 	tainted := ""
+	runtimeTags := map[string]bool{}
 	sawRedirect := false
 	classes := map[string]bool{}
 	for i, o := range ops {
@@ -733,6 +920,16 @@ func (c38) Run(in string, scratch string) Result {
 				sides[0].vname(ho.VersionID)
 			}
 		}
+		if strings.HasSuffix(f[0], "W") && len(f[0]) > 1 {
+			if strings.Contains(pd, " p3.") {
+				runtimeTags["multipage3:"+f[0]] = true
+			} else if strings.Contains(pd, " p2.") {
+				runtimeTags["multipage2:"+f[0]] = true
+			}
+		}
+		if f[0] == "G" && ec == nil && c38N(f, 4) != 0 {
+			runtimeTags[fmt.Sprintf("range-shape-%d-ok", c38N(f, 4))] = true
+		}
 		tok := "I"
 		if errors.Is(ec, storage.ErrNotImplemented) {
 			tok = "NI"
@@ -743,7 +940,7 @@ func (c38) Run(in string, scratch string) Result {
 			cm, dm := c38Fields(pc), c38Fields(pd)
 			var unexplained []string
 			for _, name := range c38DiffNames(cm, dm) {
-				cls := c38Explain(f, name, cm[name], dm[name])
+				cls := c38Explain(f, name, cm, dm)
 				if cls == "" && tainted != "" {
 					cls = "after:" + tainted
 				}
@@ -787,6 +984,10 @@ func (c38) Run(in string, scratch string) Result {
 		}
 	}
 	res.Tags = c38Tags(ops)
+	for k := range runtimeTags {
+		res.Tags = append(res.Tags, k)
+	}
+	sort.Strings(res.Tags)
 	return res
 }
 
